@@ -58,6 +58,7 @@ Definition in_u64b (z : Z) : bool := (0 <=? z) && (z <=? U64_MAX).
 (* `x as i32` from a wider integer: two's complement reinterpretation *)
 Definition wrap_i32 (z : Z) : Z := (z + 2147483648) mod 4294967296 - 2147483648.
 Definition wrap_u32 (z : Z) : Z := z mod 4294967296.
+Definition wrap_u8 (z : Z) : Z := z mod 256.
 Definition wrap_i64 (z : Z) : Z := (z + 9223372036854775808) mod 18446744073709551616 - 9223372036854775808.
 Definition wrap_u64 (z : Z) : Z := z mod 18446744073709551616.
 
